@@ -76,7 +76,7 @@ theorem comm_warp (P : Pert) (cfg : Cfg) (c : Ctx) (token hook : Bytes) (domain 
         | noop => simp only [Res.pure_eq, Res.map_ok']
         | igp idenom idomain rate price overhead =>
           have hz := higp idenom idomain rate price overhead (hookFor_mem hk)
-          simp only [Pert.send, hz, Res.map_ite', Res.map_err']
+          simp only [Pert.send, hz, Res.map_ite', Res.map_err', Res.map_panic']
 
 
 theorem ne_sweep_1 : "bank.SendCoins" ≠ sweepSite := by decide
@@ -530,6 +530,36 @@ theorem ics20_hook_same {cfg : Cfg} {c c' : Ctx} {pkt : Packet} (h : ics20Recv c
           · simp only [Res.pure_eq, Res.ok.injEq] at h
             subst h
             simp only [ExtState.hooks]
+            rw [send_ext h1]
+        · split at h
+          · cases h
+          · rw [send_ext h]; rfl
+
+theorem ics20_routers_same {cfg : Cfg} {c c' : Ctx} {pkt : Packet} (h : ics20Recv cfg c pkt = .ok c') : c'.ext.hypRouters = c.ext.hypRouters := by
+  unfold ics20Recv at h
+  cases hdd : decFTPD pkt.data with
+  | none => simp [hdd] at h
+  | some d =>
+    simp only [hdd] at h
+    cases hamt : newIntFromString d.amount with
+    | none => simp [hamt] at h
+    | some amt =>
+      simp only [hamt, Res.pure_eq, Res.bind_ok, Res.guard_bind_eq_ok] at h
+      obtain ⟨_, _, _, _, _, h⟩ := h
+      cases hr : accAddressFromBech32 cfg.hrp d.receiver with
+      | none => simp [hr] at h
+      | some r =>
+        simp only [hr, Res.bind_ok] at h
+        split at h
+        · obtain ⟨_, _, h⟩ := Res.bind_eq_ok.mp h
+          simp only [Res.guard_bind_eq_ok] at h
+          obtain ⟨_, h⟩ := h
+          obtain ⟨c1, h1, h⟩ := Res.bind_eq_ok.mp h
+          split at h
+          · cases h
+          · simp only [Res.pure_eq, Res.ok.injEq] at h
+            subst h
+            simp only
             rw [send_ext h1]
         · split at h
           · cases h
